@@ -9,6 +9,7 @@ def run(ctx):
     L.lck5_compact_swap(ctx)
     L.lck6_declared_order(ctx)
     L.lck7_freeze(ctx)
+    L.flw16_offsets_count_placed_rows(ctx)
     L.lck1_flush_critical_section(ctx, with_reset=False)
     O.opt1_shared_optional_payload(ctx)
     return ctx.finish(
